@@ -1,9 +1,10 @@
 import Magog.Lemmas.Geometry
+import Magog.Lemmas.Attack
 
 /-! Property C09 — attack / check detection matches chess geometry. -/
 
 namespace Magog.Props.C09
-open Magog Magog.Model Magog.Geo
+open Magog Magog.Model Magog.Geo Magog.Atk
 
 /-- Every entry of the engine's *initialised* attack table (regenerated from the source each run) is
     exactly the geometric relation of that piece kind, for all ordered pairs of board squares; nothing
@@ -20,5 +21,52 @@ theorem attackTable_geometry (a t : Nat) (ha : a ∈ sq88) (ht : t ∈ sq88) :
   simp only [pairOk, Bool.and_eq_true, beq_iff_eq] at h
   obtain ⟨⟨⟨⟨⟨⟨⟨⟨_, h1⟩, h2⟩, h3⟩, h4⟩, h5⟩, h6⟩, h7⟩, _⟩ := h
   exact ⟨h1, h2, h3, h4, h5, h6, h7⟩
+
+/-- Attack detection is the rules-of-chess notion, for EVERY well-formed board and arrangement of men:
+    `isUnderCheck` does not panic (no index error, no `hang`) and its answer is `Spec.attacked` — sliders
+    are blocked by any man strictly in between, knights / kings / pawns are not, pawns attack in the
+    direction of their colour, nothing attacks across the board edge. `BoardOk`: 128 slots, on-board slots
+    hold 0 or one of the twelve piece codes. `SideOk`: the side's pawn list, piece list and king square
+    describe exactly that colour's men on the board. -/
+theorem C09_attacked (board : Array Nat) (enemy : Side) (white : Bool) (dest : Nat) :
+    BoardOk board → SideOk board enemy white → dest < 128 → isValid dest = true →
+    isUnderCheck board enemy dest
+      = .ok (Spec.attacked (absBoard board) (if white then .white else .black) (to64 dest)) :=
+  fun hb hs h1 h2 => isUnderCheck_eq hb hs (mem_sq88.2 ⟨h1, h2⟩)
+
+example : BoardOk startPosition.board ∧ SideOk startPosition.board (startPosition.side false) false ∧
+    (0x04 < 128 ∧ isValid 0x04 = true) :=
+  ⟨boardOk_of_boardOkB (by decide +kernel), sideOk_of_sideOkB (by decide +kernel), by decide⟩
+
+/-- a position with a blocked and an unblocked slider (white Ra1 Bf1 Ke1 Pa2, black Rh1 Ka8): the
+    hypotheses hold, and through the theorem the model's answers are the rules' answers — the black rook
+    h1 attacks f1 (adjacent) but not e1 (the bishop on f1 stands in between) -/
+example : BoardOk blockedBoard ∧ SideOk blockedBoard blockedBlack false :=
+  ⟨boardOk_of_boardOkB (by decide +kernel), sideOk_of_sideOkB (by decide +kernel)⟩
+
+example : isUnderCheck blockedBoard blockedBlack 0x05 = .ok true := by
+  rw [C09_attacked blockedBoard blockedBlack false 0x05 (boardOk_of_boardOkB (by decide +kernel))
+    (sideOk_of_sideOkB (by decide +kernel)) (by decide) (by decide)]
+  exact congrArg _ (by decide +kernel)
+
+example : isUnderCheck blockedBoard blockedBlack 0x04 = .ok false := by
+  rw [C09_attacked blockedBoard blockedBlack false 0x04 (boardOk_of_boardOkB (by decide +kernel))
+    (sideOk_of_sideOkB (by decide +kernel)) (by decide) (by decide)]
+  exact congrArg _ (by decide +kernel)
+
+/-- `isCurrentKingUnderCheck` is the rules' "side to move is in check", for every well-formed position. -/
+theorem C09_inCheck (p : Position) :
+    BoardOk p.board → SideOk p.board (p.side true) true → SideOk p.board (p.side false) false →
+    isCurrentKingUnderCheck p = .ok (Spec.inCheck (abs p).board (abs p).turn) := by
+  intro hb hw hbl
+  simp only [isCurrentKingUnderCheck, abs]
+  cases whiteTurn p
+  · exact inCheck_eq (w := false) hb hbl hw
+  · exact inCheck_eq (w := true) hb hw hbl
+
+example : BoardOk startPosition.board ∧ SideOk startPosition.board (startPosition.side true) true ∧
+    SideOk startPosition.board (startPosition.side false) false :=
+  ⟨boardOk_of_boardOkB (by decide +kernel), sideOk_of_sideOkB (by decide +kernel),
+   sideOk_of_sideOkB (by decide +kernel)⟩
 
 end Magog.Props.C09
